@@ -609,7 +609,7 @@ class Engine:
         qs = list(queries)
         # longest first, seed permutes ties
         rnd.shuffle(qs)
-        qs.sort(key=lambda q: -q.mem_gb * q.timeout if False else 0)
+        qs.sort(key=lambda q: -q.mem_gb)      # expected-expensive queries first (the seed permutes ties)
         if budget_s:
             self.deadline = self.t0 + budget_s
         threads = []
